@@ -162,6 +162,7 @@ void wfx(int eid, int idx) {
   }
 }
 
+std::size_t wrt(int n) { return static_cast<std::size_t>(n + (S ? 0 : 1)); }
 int wret(int eid) {
   g_log.clauses.push_back(Clause{C_RET, eid, 0, S->depth});
   return eid;
